@@ -115,7 +115,13 @@ def run_exact(c, tolerant=False):
   seen = []
   filt = build(b, a, c["route"])
   mem, eff = memory(c["mem"], c["memv"], lm, zero, seen)
-  out = filt(list(x), memory=mem, zero=zero)
+  # the input may be any iterable; memory and zero may be given by position or by keyword
+  sel = (len(x) + lm + len(nzb)) % 6
+  xin = [list, tuple, iter, (lambda v: (t for t in v)), Stream, (lambda v: Stream(v).map(lambda t: t))][sel](list(x))
+  if sel % 2:
+    out = filt(xin, mem, zero)
+  else:
+    out = filt(xin, zero=zero, memory=mem)
   if not isinstance(out, Stream):
     raise Violation("filter call returned %s, not a Stream" % type(out).__name__)
   if c["mem"] in ("list", "long") and mem:
